@@ -75,6 +75,7 @@ func (self *Analyzer) lastIsErrorAt(span errors.Span) bool {
     loop "range gotFnParams.Params" invariant foundParam == nil || foundParam.Name.Ident() == expectedParam.Name.Ident()
     ensures @silent len(self.diagnostics) == old(len(self.diagnostics))
     ensures @scalars-same-kind ast.VScalarKind(got.Kind()) && got.Kind() == expected.Kind() ==> result == nil
+    ensures @compatible-types-have-one-kind result == nil ==> got.Kind() == expected.Kind() || expected.Kind() == ast.AnyTypeKind || expected.Kind() == ast.UnknownTypeKind || expected.Kind() == ast.NeverTypeKind || got.Kind() == ast.AnyTypeKind || got.Kind() == ast.UnknownTypeKind || got.Kind() == ast.NeverTypeKind
     ensures @scalars-different-kind ast.VScalarKind(got.Kind()) && ast.VScalarKind(expected.Kind()) && got.Kind() != expected.Kind() ==> result != nil && result.GotDiagnostic.Level == diagnostic.DiagnosticLevelError
 @*/
 
@@ -251,4 +252,22 @@ func vb2i(b bool) int {
     assumepre TypeCheck, expression
     ensures @imports-stay-private ghost(pubImports) == old(ghost(pubImports))
     loopinvariant ghost(pubImports) == entry(ghost(pubImports))
+@*/
+
+// ---------------------------------------------------------------------------
+// `if` expressions (C03; also what the code generator's stack discipline
+// assumes about accepted trees, C02/C09): the condition is a bool, an `if`
+// without `else` generates no value, and with an `else` the two branches have
+// one kind of type (or one of them does not complete) - otherwise an error is
+// reported.
+
+/*@ func (self *Analyzer) ifExpression
+    serves C03, C02, C09
+    assume-safety
+    assumepre expression, block, TypeCheck, SetSpan
+    ensures @reports-only len(self.diagnostics) >= old(len(self.diagnostics))
+    ensures @condition-is-bool len(self.diagnostics) == old(len(self.diagnostics)) ==> result.Condition.Type().Kind() == ast.BoolTypeKind || result.Condition.Type().Kind() == ast.AnyTypeKind || result.Condition.Type().Kind() == ast.UnknownTypeKind || result.Condition.Type().Kind() == ast.NeverTypeKind
+    ensures @no-else-means-no-value len(self.diagnostics) == old(len(self.diagnostics)) && result.ElseBlock == nil ==> result.ResultType.Kind() == ast.NullTypeKind
+    ensures @branches-of-one-kind len(self.diagnostics) == old(len(self.diagnostics)) && result.ElseBlock != nil ==> result.ThenBlock.ResultType.Kind() == result.ElseBlock.ResultType.Kind() || result.ThenBlock.ResultType.Kind() == ast.AnyTypeKind || result.ThenBlock.ResultType.Kind() == ast.UnknownTypeKind || result.ThenBlock.ResultType.Kind() == ast.NeverTypeKind || result.ElseBlock.ResultType.Kind() == ast.AnyTypeKind || result.ElseBlock.ResultType.Kind() == ast.UnknownTypeKind || result.ElseBlock.ResultType.Kind() == ast.NeverTypeKind
+    ensures @type-of-the-whole len(self.diagnostics) == old(len(self.diagnostics)) && result.ElseBlock != nil ==> result.ResultType.Kind() == result.ElseBlock.ResultType.Kind() || result.ResultType.Kind() == result.ThenBlock.ResultType.Kind()
 @*/
